@@ -14,6 +14,10 @@ def dispatch(prop):
         from . import check_bucket
         return (lambda tier: check_bucket.run(prop, tier)), \
                (lambda path: check_bucket.replay(prop, path))
+    if prop == 'C16':
+        from . import check_laws
+        return (lambda tier: check_laws.run(prop, tier)), \
+               (lambda path: check_laws.replay(prop, path))
     if prop == 'C15':
         from . import check_shards
         return (lambda tier: check_shards.run(prop, tier)), \
